@@ -152,6 +152,10 @@ class CallFrame(MemorySegment):
         # (set by the FRAME instruction once the arguments are taken)
         self.stack_base = 0
 
+        # the depth of the operand stack when the statement being
+        # executed in this frame began (known with debug info only)
+        self.stmt_stack_depth = None
+
     def set_temp_reference(self, idx, value):
         # get a non reference value, create a temporary cell for it,
         # and then store a reference to it in the given index.
@@ -234,6 +238,16 @@ class QvmCpu:
         self.trap_target = None
         self.error_handler_active = False
         self.trapped_addr = 0
+
+        # the addresses statements begin at (known with debug info
+        # only): the depth of the operand stack is noted there, so
+        # that the partial results of a statement that fails can be
+        # dropped when its error is handled
+        self.stmt_starts = None
+        debug_info = getattr(module, 'debug_info', None)
+        if debug_info is not None:
+            self.stmt_starts = frozenset(
+                stmt.start_offset for stmt in debug_info.stmts)
 
         self.received_keyboard_interrupt = False
         signal.signal(signal.SIGINT, self.signal_handler)
@@ -325,6 +339,11 @@ class QvmCpu:
             self.received_keyboard_interrupt = False
             self._trap(TrapCode.KEYBOARD_INTERRUPT)
             return
+
+        if self.stmt_starts is not None and \
+           self.cur_frame is not None and \
+           self.pc in self.stmt_starts:
+            self.cur_frame.stmt_stack_depth = len(self.stack)
 
         self.prev_pc = self.pc
         instr_addr = self.pc
@@ -425,6 +444,14 @@ class QvmCpu:
         self.trapped_addr = self.prev_pc
         raise Trapped(trap_code=code, trap_kwargs=kwargs)
 
+    def _drop_partial_results(self):
+        # what the failing statement had pushed so far is of no use to
+        # the handler, to the statement when it is resumed, or to the
+        # next statement (a RETURN would take it for an address)
+        frame = self.cur_frame
+        if frame is not None and frame.stmt_stack_depth is not None:
+            del self.stack[frame.stmt_stack_depth:]
+
     def _trap(self, code, **kwargs):
         logger.info('Received trap: %s', code)
 
@@ -436,6 +463,7 @@ class QvmCpu:
             if self.trap_target == 'next':
                 try:
                     self._exec_errresn()
+                    self._drop_partial_results()
                     return
                 except Trapped as e:
                     # cannot skip the failing statement (no debug info
@@ -458,6 +486,7 @@ class QvmCpu:
                     del self.stack[frame.stack_base:]
                     self.cur_frame = frame.prev_frame
                     frame.destroy()
+                self._drop_partial_results()
                 self.pc = self.trap_target
                 self.error_handler_active = True
                 return
